@@ -281,3 +281,8 @@ pub fn stream_freed_native(server: bool, raw_id: u64, half_recv: bool, other_pre
 pub fn peek_send_limits(s: &StreamsState) -> (u64, u64) {
     (s.max_data, s.max[Dir::Bi as usize])
 }
+
+/// connection-level bytes received, for native replay bodies outside this module
+pub fn peek_data_recvd(s: &StreamsState) -> u64 {
+    s.data_recvd
+}
